@@ -241,6 +241,8 @@ def run(tier, seed):
         nid += 1
         items = rand_program(rng)
         cases.append({"id": nid, "files": {"top.sv": items}, "top": "top.sv", "fn": "preprocess"})
+        if rng.random() < 0.15:
+            cases[-1]["nl"] = "\r\n"          # CRLF line ends
         by_id[str(nid)] = {"seeded": i}
     vlib.log("C05: %d cases (%d exported by TLC, %d seeded)" % (len(cases), len(ex), nrand))
     records, hcases, results = ppcheck.build_run_records(cases, "c05", check_origins=False)
